@@ -1,6 +1,6 @@
 ---------------------------- MODULE Gen_Nowiki ----------------------------
 EXTENDS Nowiki, Json
-CONSTANTS MaxTok, Mode, Depth, DeepAll   \* Mode = "nowiki" | "comment" | "nested" (frames up to Depth deep)
+CONSTANTS MaxTok, Mode, Depth, DeepAll, FinRule   \* Mode = "nowiki" | "comment" | "nested" (frames up to Depth deep)
 
 \* token alphabet for payloads (each token a sequence of characters)
 Tokens == { <<"{", "{", "T", "1", "|", "x", "}", "}">>, <<"{", "{", "{", "1", "}", "}", "}">>, <<"[", "[", "a", "]", "]">>,
@@ -44,13 +44,20 @@ Init == IF Mode = "nested" THEN case \in NestCases(0)
 Next == UNCHANGED case
 Spec == Init /\ [][Next]_case
 
-NestVariant(fs, r, c) == [c |-> c, q |-> Quote(c), input |-> NInput(fs, c), expanded |-> Fin(r, c), must |-> Demand(fs, r)]
+\* FinRule = "fixpoint": the code (closed form Fin; for contexts of fewer than Depth frames TLC also
+\* checks that the pass-by-pass loop gives the same); another rule: that loop, for the Demo configurations
+NestVariant(fs, r, c) == [c |-> c, q |-> Quote(c), input |-> NInput(fs, c), must |-> Demand(fs, r),
+                          expanded |-> IF FinRule = "fixpoint" THEN Fin(r, c) ELSE FinLoop(r, c, FinRule, 1)]
 Laws == /\ Mode = "nowiki" => Recoverable(case.c) /\ Inert(case.c)
         /\ Mode = "nested" => \A i \in 1..Len(PaySeq) : Recoverable(PaySeq[i]) /\ Inert(PaySeq[i])
 Emit == IF Mode = "nested"
-        THEN \E r \in {ER(Build(case.fs), TopMode(case.o), FALSE, case.o)} : \E pi \in {PayIdx(case.fs)} :
-               PrintT(<<"CASE", ToJson([fs |-> case.fs, o |-> case.o, exact |-> Exact(case.fs),
-                        vars |-> [i \in 1..Len(pi) |-> NestVariant(case.fs, r, PaySeq[pi[i]])]])>>)
+        THEN \E r \in {NRes(case.fs, case.o)} : \E pi \in {PayIdx(case.fs)} :
+             \E vs \in { [i \in 1..Len(pi) |-> NestVariant(case.fs, r, PaySeq[pi[i]])] } :
+               \* the statement, checked on the model's own steps: what the model hands out holds no
+               \* placeholder and, wherever the stored nowiki survives, its entity-quoted content
+               /\ \A i \in 1..Len(vs) : NoPlaceholder(vs[i].expanded) /\ (HasN(r) => Contains(vs[i].expanded, vs[i].q))
+               /\ (FinRule = "fixpoint" /\ Len(case.fs) < Depth) => \A i \in 1..Len(vs) : FinLaw(r, vs[i].c)
+               /\ PrintT(<<"CASE", ToJson([fs |-> case.fs, o |-> case.o, exact |-> Exact(case.fs), vars |-> vs])>>)
         ELSE IF Mode = "nowiki"
         THEN PrintT(<<"CASE", ToJson([ctx |-> case.ctx, input |-> Input(case.ctx, case.c), expanded |-> Expanded(case.ctx, case.c),
                                       path |-> LeafPath(case.ctx), leaf |-> LeafText(case.ctx, case.c), c |-> case.c])>>)
